@@ -329,8 +329,23 @@ fn wide_string() -> impl Strategy<Value = String> {
             s.extend(tail.into_iter().map(|i| WIDE[i]));
             s
         }),
+        // ... or a number of COMPONENTS at a counting edge
+        1 => (0usize..COUNT_EDGES.len(), 0usize..3, 0usize..3).prop_map(|(edge, back, name)| {
+            let comp = ["a", "é", "b.c"][name];
+            let count = COUNT_EDGES[edge].saturating_sub(back).max(1);
+            let mut s = String::with_capacity(count * (comp.len() + 1));
+            for i in 0..count {
+                if i > 0 {
+                    s.push('/');
+                }
+                s.push_str(comp);
+            }
+            s
+        }),
     ]
 }
+
+const COUNT_EDGES: [usize; 9] = [16, 127, 128, 255, 256, 257, 512, 1024, 65536];
 
 /// chains over a SMALL alphabet of same-length names, so that the same (base, segment) pair and
 /// different bases of equal length recur within one chain: join must be a function of its two
@@ -443,7 +458,7 @@ fn check_chain(r: &Roots, chain: &[ChainStep]) -> Result<usize, String> {
     }
 }
 
-const RULE: &str = "(1) EXHAUSTIVE: every string that is a concatenation of <=N tokens over {'/','.','..','a','b.c','é'} (N=7 quick, 10 thorough) joined onto 5 bases, for VfsPath and AsyncVfsPath; (2) random: strings over a wider alphabet (spaces, backslash, combining marks, 4-byte scalars, NUL, up to 64 tokens) and arbitrary Strings, composition pairs, and chains of join/parent/root up to length 12; long arguments (64..700 tokens, and filler runs ending at byte lengths 31..65536 with multi-byte fillers across the edge); chains of up to 24 steps over 8 short names where the same segment recurs on different bases of equal length, with clones kept and dropped in between (join must not depend on the history); joins onto short-lived temporaries (`deep.parent().join(seg)` over 2..8 deep paths with parents of equal byte length, expected values computed beforehand so that the allocator can hand the same address to the next temporary); oracle = 15-line reference resolver + canonical-form predicate + accessor laws (parent, filename, extension, root, is_root, equality across two instances); non-trivial = argument with >=1 '..' and >=1 other component, or a multi-byte character adjacent to a separator, or a chain with >=3 joins; distinct by (base,arg) hash";
+const RULE: &str = "(1) EXHAUSTIVE: every string that is a concatenation of <=N tokens over {'/','.','..','a','b.c','é'} (N=7 quick, 10 thorough) joined onto 5 bases, for VfsPath and AsyncVfsPath; (2) random: strings over a wider alphabet (spaces, backslash, combining marks, 4-byte scalars, NUL, up to 64 tokens) and arbitrary Strings, composition pairs, and chains of join/parent/root up to length 12; long arguments (64..700 tokens, and filler runs ending at byte lengths 31..65536 with multi-byte fillers across the edge; component COUNTS at 16..65536 ± 2); chains of up to 24 steps over 8 short names where the same segment recurs on different bases of equal length, with clones kept and dropped in between (join must not depend on the history); joins onto short-lived temporaries (`deep.parent().join(seg)` over 2..8 deep paths with parents of equal byte length, expected values computed beforehand so that the allocator can hand the same address to the next temporary); oracle = 15-line reference resolver + canonical-form predicate + accessor laws (parent, filename, extension, root, is_root, equality across two instances); non-trivial = argument with >=1 '..' and >=1 other component, or a multi-byte character adjacent to a separator, or a chain with >=3 joins; distinct by (base,arg) hash";
 
 /// join on SHORT-LIVED bases: every base is a temporary (`deep.parent()`), dropped right after
 /// the join, so that the next temporary may live at the same address with the same length. The
